@@ -81,6 +81,29 @@ fn check_one<CS: CLCiphersuite>(rep: &Report, ck: &str, c: &Case, keys: &[ClKey]
             }
         }
     }
+    // the same subsets spelled as a caller may spell them: not in ascending order, with positions listed twice
+    // (next to each other or apart).  The call may refuse such a list; a result it returns must verify.
+    if n >= 2 {
+        let a = (splitmix(&mut st) as usize) % n;
+        let b = (a + 1 + (splitmix(&mut st) as usize) % (n - 1)) % n;
+        let mut spellings: Vec<Vec<usize>> = vec![vec![b, a], vec![a, a], vec![a, b, a], vec![b, a, a, b]];
+        if n >= 3 {
+            let c3 = (0..n).find(|i| *i != a && *i != b).unwrap();
+            spellings.push(vec![c3, a, b, c3]);
+            spellings.push((0..n).rev().collect());
+        }
+        for u in spellings {
+            rep.eval(ck, 1);
+            if let Ok((m2, b2)) = catch(|| sig.disclose_selectively(&msgs, bases.clone(), pk, &u)) {
+                if !sig.verify_multiattr(pk, &b2, &m2) {
+                    return rep.fail(ck, "selective-disclosure-rejected:list-spelling", format!("hidden list {:?} of {} (same set, listed out of order / with repeats)", u, n), cj(json!({"hidden": u})));
+                }
+                rep.class("hide-list-with-repeats-or-unsorted");
+            } else {
+                rep.class("hide-list-with-repeats-refused");
+            }
+        }
+    }
     if n <= 5 {
         rep.exhaustive(format!("disclose_selectively over all 2^n hidden sets, n = {}", n));
     }
@@ -286,7 +309,7 @@ pub fn run(ctx: &Ctx, rep: &Report) -> Meta {
     }
     Meta {
         rule: "key from a pool (KeyPair::generate() keys and keys built from pre-computed safe primes through the public constructors), n = 1..5 attributes from {0, 1, 2^255, 2^256-1, SHA-256 of bytes, random 256-bit}, fresh bases; \
-               positive: sign / sign_multiattr verify, disclose_selectively for ALL 2^n hidden sets verifies, byte and JSON round trips, e prime (own Miller-Rabin + GMP) of exactly le bits coprime to (p-1)(q-1), s of exactly ls bits; \
+               positive: sign / sign_multiattr verify, disclose_selectively for ALL 2^n hidden sets verifies (and, for the same sets listed out of order or with repeated positions, whatever the call returns verifies; it may refuse), byte and JSON round trips, e prime (own Miller-Rabin + GMP) of exactly le bits coprime to (p-1)(q-1), s of exactly ls bits; \
                negative (attacker programs need no secret key): every attribute +-1 / bit flip / random, swaps, dropped attribute, shift by k*e with v*a_i^k for k in {1, 2, -1, -2} (oversized and negative attributes), \
                single-field edits of e, s, v (+-1, bit flip, 0, 1), field swaps, trivial-exponent forgery e = 1, other bases, rotated bases, other key; oracle: verify is false; \
                attribute-count sweep n = 6..=24 (quick) / 6..=70 (thorough); byte round trip of constructed signatures with tiny / maximal / leading-zero components; non-trivial = n >= 2 or a negative family executed; evaluations = verifications"
